@@ -390,6 +390,50 @@ def mapPop (w : World) (h : SlabID) (cx : Ctx) : Except WErr (List (MKey × Elem
     | .ok (w, cx) => .ok (kvs, w, cx)
   | _ => .error .unknownContainer
 
+/-! ### Handles obtained by lookup or mutable iteration, and after reopening the storage
+
+`Array.Get` / `OrderedMap.Get` and the mutable iterators call `setCallbackWithChild` on the value
+they hand out: the NEW handle of a child container gets the parent-updater closure (and, for array
+parents, the index is recorded again).  Reopening the containers on a fresh storage drops every
+handle: no closure, no recorded index, until the children are fetched again. -/
+
+/-- wrapper depth of a parent element that refers to container `c` -/
+def wrapDepth (c : Cont) (el : Elem) : Nat :=
+  (el.size - (if c.isInlined then c.rootSize else slabIDStorableSize)) / 2
+
+/-- `Array.Get(i)` (also: the mutable array iterator arriving at index `i`) -/
+def arrGet (w : World) (p : SlabID) (i : Nat) : Except WErr (Elem × World) :=
+  match w.cont? p with
+  | some (.arr a) =>
+    match a.get i with
+    | .error e => .error (.arr e)
+    | .ok el =>
+      match el.pay with
+      | .ref vid =>
+        match w.cont? vid with
+        | none => .ok (el, w)
+        | some c => .ok (el, w.setCallbackArr p i (.child vid (wrapDepth c el)))
+      | _ => .ok (el, w)
+  | _ => .error .unknownContainer
+
+/-- `OrderedMap.Get(key)` (also: the mutable map iterator arriving at `key`) -/
+def mapGet (w : World) (p : SlabID) (k : MKey) : Except WErr (Elem × World) :=
+  match w.cont? p with
+  | some (.map m) =>
+    match m.get w.mcfg k with
+    | .error e => .error (.map e)
+    | .ok (k', el) =>
+      match el.pay with
+      | .ref vid =>
+        match w.cont? vid with
+        | none => .ok (el, w)
+        | some c => .ok (el, w.setCallbackMap p k' (.child vid (wrapDepth c el)))
+      | _ => .ok (el, w)
+  | _ => .error .unknownContainer
+
+/-- all containers reopened from their registers on a fresh storage -/
+def reopen (w : World) : World := { w with hinfo := [], mutIdx := [] }
+
 /-- `NewArray` / `NewMap`: a new standalone container -/
 def newArr (w : World) (ty : Nat) (cx : Ctx) : SlabID × World × Ctx :=
   let (a, cx) := Arr.new w.addr ty cx
